@@ -4,9 +4,9 @@ import os
 import re
 import vcheck as V
 
-SHAPES = {0: "other", 1: "struct-by-value-in-map", 2: "toplevel-untagged-map", 3: "taggable-map-no-matching-tag", 4: "unexported-field", 5: "field-after-taggable-struct"}
+SHAPES = {0: "other", 1: "struct-by-value-in-map", 2: "toplevel-untagged-map", 3: "taggable-map-no-matching-tag", 4: "unexported-field", 5: "field-after-taggable-struct", 6: "nested-pointer-tag"}
 CLASSES = {0: "other", 1: "ptr-struct", 2: "slice", 3: "string-slice", 4: "ptr-string", 5: "map", 6: "taggable-map", 7: "taggable-struct",
-           8: "nil", 9: "rotation", 10: "event-wrapper-info", 11: "string-by-value", 13: "unexported-fields"}
+           8: "nil", 9: "rotation", 10: "event-wrapper-info", 11: "string-by-value", 13: "unexported-fields", 14: "struct-by-value"}
 
 # which mismatch kinds speak about which property (Run_Encrypt.kind / Run_Crypto.kind)
 RELEVANT = {
@@ -44,10 +44,10 @@ WHAT = {
 }
 
 ARGS = {
-    ("C09", "quick"): ["-modes", "special,tagtable,random", "-random", "3000", "-depth", "4"],
-    ("C09", "thorough"): ["-modes", "special,tagtable-full,enum,random", "-enum-depth", "3", "-random", "30000", "-depth", "4"],
-    ("C10", "quick"): ["-modes", "special,tagtable,random", "-random", "3000", "-depth", "4"],
-    ("C10", "thorough"): ["-modes", "special,tagtable-full,enum,random", "-enum-depth", "3", "-random", "30000", "-depth", "4"],
+    ("C09", "quick"): ["-modes", "special,tagtable,history,random", "-random", "3000", "-depth", "4", "-histories", "250"],
+    ("C09", "thorough"): ["-modes", "special,tagtable-full,enum,history,random", "-enum-depth", "3", "-random", "30000", "-depth", "4", "-histories", "3000"],
+    ("C10", "quick"): ["-modes", "special,tagtable,history,random", "-random", "3000", "-depth", "4", "-histories", "150"],
+    ("C10", "thorough"): ["-modes", "special,tagtable-full,enum,history,random", "-enum-depth", "3", "-random", "30000", "-depth", "4", "-histories", "2000"],
     ("C16", "quick"): ["-crypto", "-crypto-histories", "600"],
     ("C16", "thorough"): ["-crypto", "-crypto-histories", "12000"],
 }
@@ -56,7 +56,7 @@ ASSUMPTIONS = {
     "C09": ["reflect addressability is one boolean of the model (validated by the correspondence); AEAD / HKDF / HMAC are symbolic (Enc k l, Hmac k l): "
             "'cannot be read without the key' means the output leaf is not Plain",
             "payloads range over the shape grammar G of DESIGN 5.C09 (Encrypt.v type v); IgnoreTypes, structpb.Struct payloads, struct payloads passed by value, "
-            "[]*string, arrays, strings held in interface{} fields / []interface{} elements, Taggable values nested in untagged maps and maps under a \"/k/k2\" pointer that hold non-leaf values are outside G",
+            "struct payloads passed by value are compared with the model (and snapshot-checked for C10) but are outside no_leak (their own strings cannot be set); []*string, arrays, strings held in interface{} fields / []interface{} elements, Taggable values nested in untagged maps and pointer tags deeper than /k/k2 are outside G",
             "with every operation overridden to none Process returns the event untouched before looking at the payload kind, so a rotation payload is then forwarded (C10's clause wins over C09's)"],
     "C10": ["'the original is untouched' is not expressible in the heap-free model: it is tied dynamically (deep snapshot of the input event before / after Process on every case) - partial",
             "copystructure (deep copy that zeroes unexported fields) is modelled by Encrypt.copyz, validated by the correspondence",
@@ -73,11 +73,11 @@ MANIFEST = {
     "C09": {"text": "Tag.v (tag resolution on strings) + Encrypt.v (walker on payload trees with symbolic leaves, one addressability flag, failure = no event); theorems no_leak "
                     "(every exposed leaf of every forwarded payload sits at a position whose own tag resolves to public / no operation, every other position holds exactly what its tag, the defaults and the overrides dictate; all trees of G, all override tables, all wrapper-failure oracles), "
                     "secure_default, fails_closed (any failing AEAD/HMAC call, missing wrapper, malformed pointer, unsettable string payload => error and no event), rotation_payload_consumed; "
-                    "tie: exhaustive tag-spelling x override table, random G-trees depth <= 4 with unique canaries, wrapper ok/absent/failing at the n-th call, output classified by independent decryption / HMAC recomputation, JSON canary search",
+                    "tie: exhaustive tag-spelling x override table, random G-trees depth <= 4 with unique canaries, histories of events on ONE filter with the same payload types recurring under changing override tables and rotated wrappers (each event judged under the table and key in force), wrapper ok/absent/failing at the n-th call, output classified by independent decryption / HMAC recomputation, JSON canary search",
             "design_ref": "5.C09", "note": _NOTE, "technique": _TECH, "engine": "coq-encrypt"},
     "C10": {"category": "proof", "text": "theorems shape_preserved (forwarded payload = input up to leaf contents: constructors, lengths, keys, field names, every non-string value of exported fields), "
                     "public_kept (public / no-operation values unchanged), noop_identity (nil / zero payload, all operations none => the same event), unexported_zeroed_refuted (F10 witness); "
-                    "PARTIAL: 'the original is untouched' is tied dynamically (deep snapshot before/after on every case), not proved; tie: same generator as C09, structural diff output vs input",
+                    "PARTIAL: 'the original is untouched' is tied dynamically (deep snapshot before/after on every case), not proved; tie: same generator as C09 (by-value struct payloads with reference-typed fields included), structural diff output vs input",
             "design_ref": "5.C10", "note": _NOTE, "technique": _TECH, "engine": "coq-encrypt"},
     "C16": {"text": "Crypto.v (key state (wrapper, salt, info), Rotate / rotation payload / event operations, key_in_force with per-event derived wrapper and salt/info precedence, framing over Base64.v); theorems "
                     "b64url_roundtrip, decrypt_roundtrip (all byte strings), hmac_value, hmac_deterministic, rotation_takes_effect (all histories), value_atomic / value_atomic_plain / value_atomic_event (all interleavings of rotations, event starts and per-value steps: every value of every event kind is produced under ONE key generation); "
@@ -149,6 +149,8 @@ def _size(v):
 def case_size(c):
     if "ops" in c:
         return len(c.get("ops") or []) + (1000 if c.get("conc") else 0)
+    if c.get("hist"):
+        return sum(_size(h.get("v")) + 1 for h in c["hist"][:c.get("step", 0) + 1])
     return _size(c.get("v")) + sum(1 for o in c.get("cfg", {}).get("ov", []) if o) + (0 if c.get("cfg", {}).get("wrap") == "ok" else 1)
 
 
@@ -231,6 +233,45 @@ def run(ctx, prop=None):
     if summ.get("tagtable_exhaustive") or summ.get("enum_complete"):
         ctx.coverage["exhaustive"] = bool(summ.get("tagtable_exhaustive")) and summ.get("enum_complete", True) is not False
         part["exhaustive_parts"] = {k: summ[k] for k in ("tagtable_exhaustive", "enum_depth", "enum_cases", "enum_complete") if k in summ}
+
+
+def concurrent_rotation_part(ctx):
+    """Only the concurrent-rotation search of encrypth -crypto (a few seconds): four goroutines process events on one
+    encrypt.Filter while a fifth rotates wrapper, salt and info TOGETHER; every HMAC value must be reproduced by one
+    rotation's (wrapper, salt, info), never by a mixture (Run_Crypto kind CKAtomic).  Appends a violation with match
+    "encrypt:CKAtomic@concurrent-rotation" to ctx.violations and its counts to ctx.coverage["parts"]; used by C19."""
+    part = {}
+    ctx.coverage["parts"]["encrypt-concurrent-rotation"] = part
+    binp = _build(ctx)
+    if not binp:
+        return
+    cdir = os.path.join(ctx.work, "encrypt-conc")
+    os.makedirs(cdir, exist_ok=True)
+    rc, out = V.run([binp, "-crypto", "-crypto-conc-only", "-crypto-histories", "0", "-out", cdir, "-prefix", "cases"],
+                    env=dict(os.environ, VERIF_SEED=str(ctx.seed)), timeout=900)
+    ctx.log(out.strip()[-300:])
+    if rc != 0:
+        rp = V.write_replay(ctx, "harness-run-conc", {"kind": "correspondence", "output": out[-4000:]})
+        ctx.violations.append({"match": "harness-crash", "replay": rp, "what": "encrypth -crypto-conc-only crashed", "no_input": True})
+        return
+    summ = json.load(open(os.path.join(cdir, "cases_summary.json")))
+    cases = [json.loads(l) for l in open(os.path.join(cdir, "cases.jsonl"))]
+    mism, failures = V.eval_shards(ctx, summ["files"], parse=_ITEM)
+    V.prune_shards(summ["files"], keep=[f for f, _ in failures])
+    for f, o in failures:
+        rp = V.write_replay(ctx, "coqc-" + os.path.basename(f), {"kind": "correspondence", "theorem_or_correspondence": "Run_Crypto.mismatches on " + f, "output": o})
+        ctx.violations.append({"match": "coqc-failure", "replay": rp, "what": "case file %s could not be evaluated" % f, "no_input": True})
+    bad = [m for m in mism if m[3] == "CKAtomic"]
+    if bad:
+        rp = V.write_replay(ctx, "encrypt-CKAtomic@concurrent-rotation", {
+            "kind": "search", "engine": "encrypth", "mode": "crypto", "signature": "CKAtomic@concurrent-rotation", "what": WHAT["CKAtomic"],
+            "theorem_or_correspondence": "Run_Crypto.conc_ok on values produced under concurrent Rotate (CryptoProofs.value_atomic_plain)",
+            "case": cases[0] if cases else None, "repro": "bin/check replay <this file> (a search: re-runs the concurrent part)"})
+        ctx.violations.append({"match": "encrypt:CKAtomic@concurrent-rotation", "replay": rp,
+                               "what": "%s: %s [CKAtomic@concurrent-rotation]" % (ctx.prop, WHAT["CKAtomic"])})
+    part.update({"values_attributed": summ.get("values_under_concurrent_rotation", 0), "mixtures_found": len(bad), "goroutines": 5,
+                 "rule": "events processed by 4 goroutines while a 5th rotates (wrapper j, salt j, info j) together; each HMAC value is attributed by independent recomputation"})
+    ctx.coverage["evaluations"] += summ.get("values_under_concurrent_rotation", 0)
 
 
 def handles_replay(rec):
